@@ -96,6 +96,13 @@ MISSED_FIRST = {
  "C17-m15": "missed while grids had no scene placement; caught after placement classes (parents, translations, rotations, set_active sequences)",
  "C17-m16": "missed while cells came in lists / arrays; caught after one-shot iterables (generators, map, iterators)",
  "C19-m13": "missed while copies were made in the same process; caught after copies pickled by another interpreter with a different hash seed",
+ "C04-m17": "missed while attenuator parameters were reached through the constructor only; caught after every parameter is driven through constructor and setter",
+ "C06-m17": "missed while stored numbers were finite; caught after non-finite values (inf, -inf, nan) for every family and front-end with the accepted-or-cleanly-refused rule",
+ "C13-m16": "missed while polygons were near the origin with well separated vertices; caught after far-from-origin polygons and short closing edges",
+ "C14-m17": "missed while the origin was never the first evaluation point; caught after exact special points (0, +-0.0, nodes, corners) as first evaluations",
+ "C15-m17": "missed while groups sat at the identity placement; caught after scene-placement classes for every group",
+ "C20-m16": "missed while the anisotropy was a scalar; caught after one factor per voxel (linear 1/anisotropy field, analytic operator with the grad D terms)",
+ "C20-m17": "missed while inputs were not compared before / after; caught after the inputs-untouched monitor",
  "C18-m3": "first missed by C18 (its histories act on profile / spectrum objects, not on re-attaching them to the Laser node); caught by C01 after same-object re-assignment mutators and the laser-geometry observable were added, and by C18 itself after the placement monitor",
 }
 rows = []
